@@ -357,7 +357,13 @@ class Store:
         return out
 
     def cmd_setChildData(self, h, a):
+        import bellows.types as t
+
         cd = a["child_data"]
+        # the child table is as large as the host configured it since the last boot (the firmware's own default is small)
+        cap = self.config.get(int(t.EzspConfigId.CONFIG_MAX_END_DEVICE_CHILDREN), 2)
+        if int(a["index"]) >= cap:
+            return {"status": self.st("setChildData", False, t.EmberStatus.INDEX_OUT_OF_RANGE)}
         self.children[int(a["index"])] = (bytes(cd.eui64.serialize()), int(cd.id), cd.type)
 
     def cmd_getChildData(self, h, a):
